@@ -917,7 +917,7 @@ where
                         self.elem_format_code = Some(format_code);
 
                         // Account for offset
-                        let len = len - OFFSET_ARRAY8;
+                        let len = len.checked_sub(OFFSET_ARRAY8).ok_or(Error::InvalidLength)?;
                         // let buf = self.reader.read_bytes(len)?;
 
                         visitor.visit_seq(ArrayAccess::new(self, len, count))
@@ -953,7 +953,7 @@ where
                         self.elem_format_code = Some(format_code);
 
                         // Account for offset
-                        let len = len - OFFSET_ARRAY32;
+                        let len = len.checked_sub(OFFSET_ARRAY32).ok_or(Error::InvalidLength)?;
                         // let buf = self.reader.read_bytes(len)?;
 
                         visitor.visit_seq(ArrayAccess::new(self, len, count))
@@ -978,7 +978,7 @@ where
                     as usize;
 
                 // Account for offset
-                let len = len - OFFSET_LIST8;
+                let len = len.checked_sub(OFFSET_LIST8).ok_or(Error::InvalidLength)?;
 
                 // Make sure there is no other element format code
                 self.elem_format_code = None;
@@ -999,7 +999,7 @@ where
                 }
 
                 // Account for offset
-                let len = len - OFFSET_LIST32;
+                let len = len.checked_sub(OFFSET_LIST32).ok_or(Error::InvalidLength)?;
 
                 // Make sure there is no other element format code
                 self.elem_format_code = None;
@@ -1037,7 +1037,7 @@ where
                     as usize;
 
                 // Account for offset
-                let size = size - OFFSET_LIST8;
+                let size = size.checked_sub(OFFSET_LIST8).ok_or(Error::InvalidLength)?;
 
                 // Make sure there is no other element format code
                 self.elem_format_code = None;
@@ -1050,7 +1050,7 @@ where
                 let count = u32::from_be_bytes(count_bytes) as usize;
 
                 // Account for offset
-                let size = size - OFFSET_LIST32;
+                let size = size.checked_sub(OFFSET_LIST32).ok_or(Error::InvalidLength)?;
 
                 // Make sure there is no other element format code
                 self.elem_format_code = None;
@@ -1087,7 +1087,7 @@ where
                     as usize;
 
                 // Account for offset
-                let size = size - OFFSET_MAP8;
+                let size = size.checked_sub(OFFSET_MAP8).ok_or(Error::InvalidLength)?;
 
                 (size, count)
             }
@@ -1106,7 +1106,7 @@ where
                 }
 
                 // Account for offset
-                let size = size - OFFSET_MAP32;
+                let size = size.checked_sub(OFFSET_MAP32).ok_or(Error::InvalidLength)?;
 
                 (size, count)
             }
